@@ -1,6 +1,6 @@
 """Single source of truth for MANIFEST.json (tools/mkmanifest.py)."""
 
-FIX_COMMITS = ['cca4fac (C19 bbox int coercion)', '1b3ab08 (C05 cutout fill dtype)', '81c7236 (C05 multiply Quantity fill)', '1970dc7 (C20 PixCoord.rotate any shape)', 'c13e427 (C01 polygon scalar contains)', 'b692b96 (C14 FITS lexists)', 'd5e55fe (C14 encode before open)', '7575e32 50480bb b15a97b 942a7aa ec59199 (C17 validators/meta/list/nvertices/text)', 'd91a439 7c95242 bdc0d0d (C12 FITS exclude prefix / include+component / component dtype)']
+FIX_COMMITS = ['cca4fac (C19 bbox int coercion)', '1b3ab08 (C05 cutout fill dtype)', '81c7236 (C05 multiply Quantity fill)', '1970dc7 (C20 PixCoord.rotate any shape)', 'c13e427 (C01 polygon scalar contains)', 'b692b96 (C14 FITS lexists)', 'd5e55fe (C14 encode before open)', '7575e32 50480bb b15a97b 942a7aa ec59199 (C17 validators/meta/list/nvertices/text)', 'd91a439 7c95242 bdc0d0d (C12 FITS exclude prefix / include+component / component dtype)', '23f75f4 4b5524a 7cc5a6b (C16/C06 compound sky meta, shape-mismatch ==, symmetric PixCoord ==)', 'dca4ab5 (C18 text kwargs aliases)', 'be2b52e f813781 bd2caa9 1c54a50 (C10 DS9 reader)']
 HOOK_COMMITS = []
 
 CHECKS = [
@@ -83,6 +83,35 @@ CHECKS = [
              'len/iter agreement, +/- component-wise and mutually inverse, separation = Euclidean, rotate = point-wise isometry that composes additively, fixes the centre and is inverted by the opposite angle (any shapes), '
              'sky round trip under an invertible WCS for both origins. numpy broadcasting/indexing rules and the WCS are parameters; copy independence is checked on real arrays.',
      'note': 'Partial: numpy and wcslib are parameters. Trusted: Lean kernel/Mathlib/3 std axioms; model PixCoord.lean + Lemmas/NDArr.lean tied by the differential run (exact on dyadic data). F201 (rotate for rank>=2) fixed in /repo 1970dc7.'},
+    {'property_id': 'C10',
+     'technique': 'Lean 4 theorems about an independent reference interpreter of the DS9 conventions (induction over token/line lists); conformance of the real parser by differential run (by builder)',
+     'text': 'A reference interpreter written from the DS9 conventions in the property text (not from the parser) is proved, for files of any length, to satisfy frame persistence, no-frame-no-region, '
+             'origin shift on positions only, ellipse semi-axes, bare = degrees/pixels, hours only for equatorial longitudes, local-over-global precedence, include sign vs key, multi-radius expansion, '
+             'separator/punctuation interchangeability and independence from unsupported lines. That the REAL regex parser equals the reference is NOT a theorem: it is decided by the differential run on grammar-generated files '
+             '(every shape x frame x notation x separator x case x sign x property list, interleaved unsupported lines).',
+     'note': 'Partial: conformance of regions/io/ds9/read.py to the reference is established only by the differential run. Trusted: Lean kernel + 3 std axioms; the Spec reading of the conventions; astropy unit conversion. '
+             'F101-F104 fixed in /repo (be2b52e f813781 bd2caa9 1c54a50).'},
+    {'property_id': 'C12',
+     'technique': 'Lean 4 theorems by induction over region lists on a variant-parameterised model of FITS writer/reader (exact rationals); generated shape tables decided; correspondence incl. real files (by builder)',
+     'text': 'For every list (any length, any mix, any padding) of representable regions: serialize then parse yields the same classes, identical geometry, exclude flag and components (fresh distinct otherwise); '
+             'fixed point proved outright; skipped regions leave no trace; other read notations (box/rectangle/rotrectangle). The round trip is refuted at full strength by exactly one open defect (F10: zero-padded short polygons) and '
+             'proved under the decidable predicate NoShortPolygon, which is shown exact. The astropy table/file layer is a parameter (law: table in = table out), exercised for real.',
+     'note': 'Trusted: Lean kernel + 3 std axioms; astropy BinTableHDU/QTable as a parameter; Gen/FitsTables.lean regenerated from the live package each run. F8/F9/F121 fixed (d91a439 7c95242 bdc0d0d); F10 open (known finding).'},
+    {'property_id': 'C16',
+     'technique': 'Lean 4 theorems on a heap (object-id tree) model of copy/deepcopy/mutation and a line-by-line model of Region.__eq__/PixCoord.__eq__; induction over mutation sequences; correspondence with aliasing-graph walk (by builder)',
+     'text': 'copy/deepcopy share no mutable object with the original, so ANY sequence of mutations of one leaves the other unchanged (induction); copy equals original and copy(**changes) differs in exactly the named fields; '
+             '== is symmetric (two-way tolerance), unit-insensitive, never raises, and detects any differing class/parameter/meta/visual entry; reflexive except for NaN parameters (F11c, open, refuted + partial); Regions slices/copies independent.',
+     'note': 'Trusted: Lean kernel + 3 std axioms; which real attributes are mutable nodes is the harness reading (validated by the aliasing walk); float rounding in cross-unit comparison excepted. F15/F22/F22b/F2c fixed in /repo.'},
+    {'property_id': 'C17',
+     'technique': 'Lean 4 theorems: translated validator decision logic, state machine over assignment/delete/dict/list operations, invariant by induction over histories; class and vocabulary tables checked against the live package each run (by builder)',
+     'text': 'validator soundness and completeness for all 12 descriptor classes, rejected operation = no-op (atomic), parameters not deletable, read-back, every Meta dict entry point validates, Regions list typed, '
+             'every constructed region valid (23 classes), and the validity invariant for histories of ANY length — full strength for all classes without an inner/outer pair; for annuli refuted by F14 (assignment can make inner >= outer; open, patch would break an existing test) and proved under the exact excluding predicate.',
+     'note': 'Trusted: Lean kernel + 3 std axioms; that Val captures what validators observe and the constructor store order are harness-validated. F11/F12/F13/F14b/F14c fixed in /repo; F14 open.'},
+    {'property_id': 'C18',
+     'technique': 'Lean 4 theorems with matplotlib patch semantics as stated parameters (rotation algebra, shoelace/winding reversal lemmas, association-list precedence); correspondence with a winding-number oracle on the real transformed paths (by builder)',
+     'text': 'For all parameters/origins/unit vectors: the point set of the Rectangle/Ellipse/Circle/Polygon patch built from the code arguments equals the region point set shifted by -origin (degrees vs radians, corner, width/height order), '
+             'annulus path = outer ++ reversed inner with negated winding (a hole under the non-zero rule; un-reversed would fill it), points/text/lines at position - origin, caller kwargs override visual override defaults (after normalisation of aliases).',
+     'note': 'Partial: matplotlib constructor/path semantics are parameters; validated on real patches by flattening Beziers and computing winding numbers (3e-4 boundary band for curves). F181/F181b fixed in /repo (dca4ab5).'},
 ]
 
 _PENDING = 'check not built yet in this session (see DESIGN.md build order); not a statement that the technique cannot apply'
